@@ -41,6 +41,16 @@ TARGETS = [
     ("radioactivedecay/decaydata.py", "DecayMatricesSympy", "_setup_matrix_e", "zero template for matrix_e"),
     ("radioactivedecay/decaydata.py", "DecayMatricesSympy", "_setup_vector_n0", "zero template for vector_n0"),
     ("radioactivedecay/decaydata.py", "DecayMatrices", "__init__", "templates created once per data set"),
+    ("radioactivedecay/fileio.py", None, "_parse_row", "Model/Csv.v parse_row"),
+    ("radioactivedecay/fileio.py", None, "read_csv", "Model/Csv.v read_rows"),
+    ("radioactivedecay/fileio.py", None, "_read_csv_file", "csv reader seam"),
+    ("radioactivedecay/inventory.py", None, "_write_csv_file", "csv writer seam"),
+    ("radioactivedecay/inventory.py", "AbstractInventory", "to_csv", "Model/Csv.v to_rows (dispatch chain generated)"),
+    ("radioactivedecay/inventory.py", "AbstractInventory", "decay_time_series_pandas", "Model/Series.v (dispatch chain generated; grid hand-modelled)"),
+    ("radioactivedecay/inventory.py", "AbstractInventory", "decay_time_series", "delegation to the data-frame variant"),
+    ("radioactivedecay/inventory.py", "AbstractInventory", "plot", "Model/Series.v (dispatch chain generated; grid, selection, limits hand-modelled)"),
+    ("radioactivedecay/inventory.py", "InventoryHP", "plot", "delegation with npoints=51"),
+    ("radioactivedecay/plots.py", None, "decay_graph", "hand-off to matplotlib"),
     ("radioactivedecay/nuclide.py", None, "_build_decay_digraph", "Model/Digraph.v build"),
     ("radioactivedecay/nuclide.py", "Nuclide", "plot", "hand-off of the graph to networkx"),
     ("radioactivedecay/plots.py", None, "_parse_nuclide_label", "Model/Digraph.v parse_nuclide_label"),
